@@ -5,11 +5,13 @@
 (* A state is one complete project description.                                    *)
 EXTENDS Ast, TLC, Json, FiniteSets
 
-CONSTANTS MaxMods
+CONSTANTS MaxMods, MinMods, Spells, Places
 
 Forms == {"mod", "names"}
-Spells == {"plain", "dotslash"}
-Places == {"early", "late"}
+AllSpells == {"plain", "dotslash"}
+AllPlaces == {"early", "late"}
+OnePlain == {"plain"}
+OneEarly == {"early"}
 
 VARIABLE pr      \* [n, edges : set of <<i, j>>, form, spell, place : functions on edges, bare : set of modules]
 Mods(n) == 1..n
@@ -17,7 +19,7 @@ AllEdges(n) == {e \in Mods(n) \X Mods(n) : e[1] < e[2]}
 (* every module except the entry has an importer *)
 Connected(n, E) == \A j \in 2..n : \E i \in 1..(j - 1) : <<i, j>> \in E
 
-Init == \E n \in 2..MaxMods : \E E \in SUBSET AllEdges(n) :
+Init == \E n \in MinMods..MaxMods : \E E \in SUBSET AllEdges(n) :
           /\ Connected(n, E)
           /\ \E f \in [E -> Forms], sp \in [E -> Spells], pl \in [E -> Places], bare \in SUBSET (2..(n - 1)) :
                \* a "bare" module exports nothing: it can only be imported as a whole
